@@ -182,6 +182,17 @@ def ip_pool(tier, rng):
                 q = ["10", "20", "30", "40"]
                 q[pos] = s
                 out.add(".".join(q).encode())
+    big = ["256", "999", "1000", "65536", "2147483648", "4294967296", "4294967297", "4294967551", "18446744073709551617",
+           "99999999999999999999", "00000000001", "0" * 40 + "7", "9" * 64]
+    for pos in range(4):
+        for v in big:
+            q = ["10", "20", "30", "40"]
+            q[pos] = v
+            out.add(".".join(q).encode())
+            out.add(("::ffff:" + ".".join(q)).encode())
+    for g in ("fffff", "00000", "0" * 30 + "1", "f" * 9, "1" * 64):
+        out.add(("1:2:3:4:5:6:7:" + g).encode())
+        out.add((g + "::1").encode())
     for q in ("1.2.3", "1.2.3.4.5", "1..2.3", ".1.2.3.4", "1.2.3.4.", "1.2.3.", "1.2.3.4..", "1,2,3,4", "1.2.3.4 ", " 1.2.3.4",
               "1.2.3.a", "a.2.3.4", "1.2.3.-4", "+1.2.3.4", "0.0.0.0", "0.1.2.3", "00.1.2.3", "255.255.255.255",
               "256.1.1.1", "1.1.1.256", "1.2.3.4x", "0x1.2.3.4", "1.2.3.04", "1.2.3.0004", "1.2.3.00004", "999.1.1.1",
@@ -238,6 +249,12 @@ def literal_domains(tier, rng):
             for x in (b"a", b" ", b".", b"]", b"[", b":", b":b:c", b".com", b"\t", b"\xc3\xa9", b"1", b"@"):
                 out.update([g + x, g[:-1] + x + b"]", g[:1] + x + g[1:], g[:-1], g + g, g[:-1] + b"]]", b"[" + g,
                             x + g if x not in (b"@",) else g])
+    # every byte value at every position of the tag
+    for body in (b"1:2:3:4:5:6:7:8", b"::1"):
+        tag = b"IPv6:"
+        for i in range(len(tag)):
+            for c in range(1, 256):
+                out.add(b"[" + tag[:i] + bytes([c]) + tag[i + 1:] + body + b"]")
     out.update([b"[", b"[]", b"[[]]", b"[]]", b"[ ]", b"[a]", b"[IPv6:]", b"[IPv6:::]", b"[::]", b"[:::]", b"[1.2.3.4",
                 b"[aaaaaaaa]:b:c", b"[1.2.3.4]:1::", b"[12345678]", b"[1234567]", b"[123456789]", b"[1.1.1.1]", b"[1.1.1.]",
                 b"[.1.1.1.1]", b"[1111111]", b"[IPv6:1]", b"[IPv6:1:2]"])
